@@ -275,6 +275,13 @@ func VerifC09Protocols() {
 		legacy = decodeKey(ansi.Print{Grapheme: string([]byte{u}), Width: 1})
 		kitty = decodeKey(ansi.CSI{Final: 'u', Parameters: [][]int{{int(l), int(u)}, {2}, {int(u)}}})
 	}
+	if zzverif.Param("nonascii") != 0 {
+		// Shift+letter of another script: legacy sends the upper-case letter as text, kitty
+		// reports the lower-case key with the shifted code and text
+		pair := [][2]rune{{'ф', 'Ф'}, {'ω', 'Ω'}, {'é', 'É'}, {'ж', 'Ж'}}[zzverif.Choose("pair", 4)]
+		legacy = decodeKey(ansi.Print{Grapheme: string(pair[1]), Width: 1})
+		kitty = decodeKey(ansi.CSI{Final: 'u', Parameters: [][]int{{int(pair[0]), int(pair[1])}, {2}, {int(pair[1])}}})
+	}
 	zzverif.Assert(legacy.String() == kitty.String(), "same-description-under-both-protocols")
 	bkey := rune(zzverif.Byte("bkey"))
 	bmods := ModifierMask(zzverif.Uint8("bmods"))
